@@ -136,60 +136,6 @@ pub open spec fn int_cmp(a: int, b: int) -> core::cmp::Ordering {
     if a == b { core::cmp::Ordering::Equal } else if a < b { core::cmp::Ordering::Less } else { core::cmp::Ordering::Greater }
 }
 
-// ---- R12: slice iterator algebra as verified loops -----------------------------------------------
-/// `slice.iter().find(p)`: the first element satisfying p
-pub fn vx_find<T, F: Fn(&&T) -> bool>(v: &[T], f: F) -> (r: Option<&T>)
-    requires forall|i: int| 0 <= i < v@.len() ==> call_requires(f, (&&v@[i],)),
-    ensures
-        r is None ==> forall|i: int| #![trigger v@[i]] 0 <= i < v@.len() ==> call_ensures(f, (&&v@[i],), false),
-        r is Some ==> exists|i: int| #![trigger v@[i]] 0 <= i < v@.len() && *r->Some_0 == v@[i] && call_ensures(f, (&&v@[i],), true)
-            && forall|j: int| #![trigger v@[j]] 0 <= j < i ==> call_ensures(f, (&&v@[j],), false),
-{
-    let mut k: usize = 0;
-    while k < v.len()
-        invariant
-            0 <= k <= v@.len(),
-            forall|i: int| 0 <= i < v@.len() ==> call_requires(f, (&&v@[i],)),
-            forall|i: int| #![trigger v@[i]] 0 <= i < k ==> call_ensures(f, (&&v@[i],), false),
-        decreases v@.len() - k,
-    {
-        let x = &v[k];
-        if f(&x) {
-            return Some(x);
-        }
-        k += 1;
-    }
-    None
-}
-
-/// `slice.iter().take_while(p).collect::<Vec<&T>>()`: the longest prefix whose elements all satisfy p
-pub fn vx_take_while_collect<T, F: Fn(&&T) -> bool>(v: &[T], f: F) -> (r: Vec<&T>)
-    requires forall|i: int| 0 <= i < v@.len() ==> call_requires(f, (&&v@[i],)),
-    ensures
-        r@.len() <= v@.len(),
-        forall|i: int| #![trigger v@[i]] 0 <= i < r@.len() ==> *r@[i] == v@[i] && call_ensures(f, (&&v@[i],), true),
-        r@.len() < v@.len() ==> call_ensures(f, (&&v@[r@.len() as int],), false),
-{
-    let mut out: Vec<&T> = Vec::new();
-    let mut k: usize = 0;
-    while k < v.len()
-        invariant
-            0 <= k <= v@.len(),
-            out@.len() == k,
-            forall|i: int| 0 <= i < v@.len() ==> call_requires(f, (&&v@[i],)),
-            forall|i: int| #![trigger v@[i]] 0 <= i < k ==> *out@[i] == v@[i] && call_ensures(f, (&&v@[i],), true),
-        decreases v@.len() - k,
-    {
-        let x = &v[k];
-        if !f(&x) {
-            return out;
-        }
-        out.push(x);
-        k += 1;
-    }
-    out
-}
-
 /*@vx:begin PRELUDE::vx_sanity*/
 // must FAIL: if it verified, the assumed contracts above would be contradictory
 proof fn vx_sanity__vxtwin_prelude()
